@@ -19,12 +19,17 @@ func init() {
 		Technique: "conditional constant propagation of parseHexUint's loop body for all 256 byte values and for the boundary digit counts; resolved branch facts (control dependence with && / || expansion and store-to-load resolution) in chunkedReader.beginChunk/Read, readLine, readTransfer, body.readLocked/readTrailer and the chunk encoder; feasible-path enumeration of chunkedReader.Read for the CRLF clause",
 		Meta: core.Meta{
 			Level:       "other",
-			Explanation: "Decides, in bfe_http: (1) parseHexUint, folded with the current byte bound to each of the 256 values: the 22 hex digits continue the loop with accumulator = accumulator*16 + digit value, every other byte reaches a return with a non-nil error; the 17th digit (or a 17-byte line) reaches an error return while the 16th is accepted; a zero-length line reaches an error return. (2) beginChunk parses exactly the line returned by readLine(cr.r), only after its error was tested, stores the parsed size to cr.n, publishes both errors in cr.err and stores io.EOF only under `parse error == nil && size == 0`. (3) chunkedReader.Read: nothing is read while cr.err is set; beginChunk runs only when cr.n == 0 and its error is tested before data is read; the slice handed to the buffered reader is clamped to cr.n; cr.n is decreased by exactly the count read on every path; when cr.n reaches 0 without error two bytes are read into cr.buf and, unless both compare equal to CR and LF, an error is stored (every feasible path). (4) readLine reads up to LF, returns a line only when ReadSlice succeeded and len < maxLineLength, returns a non-nil error otherwise, and trims only trailing bytes from the set {SP, HT, CR, LF} (must include CR and LF). (5) readTransfer installs newChunkedReader(r) on the connection's own reader exactly under chunked(TransferEncoding) with hdr = msg; body.readLocked reads the trailer only on io.EOF with hdr != nil; readTrailer's fast path requires the two bytes CRLF. (6) the encoder writes no chunk for empty data, the size line is \"%x\\r\\n\" of len(data), the data, then CRLF; Close writes \"0\\r\\n\" and WriteBody terminates a chunked body with CRLF. Not covered: equality of decoded and encoded data as byte strings (round trip), chunk extensions (a ';' in the size line is rejected as an invalid byte), trailer field semantics, behaviour of bfe_bufio.Reader itself (C22).",
+			Explanation: "Decides, in bfe_http: (1) parseHexUint, folded with the current byte bound to each of the 256 values: the 22 hex digits continue the loop with accumulator = accumulator*16 + digit value, every other byte reaches a return with a non-nil error; the 17th digit (or a 17-byte line) reaches an error return while the 16th is accepted; a zero-length line reaches an error return. (2) beginChunk parses exactly the line returned by readLine(cr.r), only after its error was tested, stores the parsed size to cr.n, publishes both errors in cr.err and stores io.EOF only under `parse error == nil && size == 0`. (3) chunkedReader.Read: nothing is read while cr.err is set; beginChunk runs only when cr.n == 0 and its error is tested before data is read; the slice handed to the buffered reader is clamped to cr.n; cr.n is decreased by exactly the count read on every path; when cr.n reaches 0 without error two bytes are read into cr.buf and, unless both compare equal to CR and LF, an error is stored (every feasible path). (4) readLine reads up to LF, returns a line only when ReadSlice succeeded and len < maxLineLength, returns a non-nil error otherwise, and trims only trailing bytes from the set {SP, HT, CR, LF} (must include CR and LF). (5) readTransfer installs newChunkedReader(r) on the connection's own reader exactly under chunked(TransferEncoding) with hdr = msg; body.readLocked reads the trailer only on io.EOF with hdr != nil; readTrailer's fast path requires the two bytes CRLF. (6) the encoder writes no chunk for empty data, the size line is \"%x\\r\\n\" of len(data), the data, then CRLF; Close writes \"0\\r\\n\" and WriteBody terminates a chunked body with CRLF. Not covered: equality of decoded and encoded data as byte strings (round trip), chunk extensions (a ';' in the size line is rejected as an invalid byte), trailer field semantics, behaviour of bfe_bufio.Reader itself (C22). Robustness: the rules look at an anchored function together with its private helpers (unexported, same package, every call site inside the region; parameters are identified with the arguments at the call site, `return helper(…)` tails with the helper's returns), conditions are taken with their polarity folded in and through named / materialised booleans and boolean helpers, the digit loop is folded from the loop header whatever its form (range or index, tests before or after the load of the byte). Not followed (reported as not established): a trimming loop rewritten with an index cursor instead of b[:len(b)-1], a CRLF comparison other than per-byte or string(cr.buf[:]) == \"\\r\\n\", a clamp computed as a minimum instead of a re-slice under len(b) > cr.n, inlining of beginChunk into Read (anchor missing).",
 			RuleText:    "obligations = 4 byte classes + 16th/17th digit + empty line of parseHexUint; value-flow, guard and store obligations of beginChunk; guard/clamp/consume/CRLF obligations of chunkedReader.Read; readLine returns; trim set; readTransfer/readLocked/readTrailer wiring; encoder constants and order",
 			Assumptions: []string{"errors.New / fmt.Errorf results and package-level Err* / io.EOF variables are non-nil errors"},
 		},
 		Run: runC23,
 		Mutants: []Mutant{
+			{Name: "silent-read-crlf-compare-in-helper", Silent: true, File: "bfe_http/chunked.go", Old: "\t\t\tif cr.buf[0] != '\\r' || cr.buf[1] != '\\n' {\n\t\t\t\tcr.err = errors.New(\"malformed chunked encoding\")\n\t\t\t}\n\t\t}\n\t}\n\treturn n, cr.err\n}\n", New: "\t\t\tcr.checkCRLF()\n\t\t}\n\t}\n\treturn n, cr.err\n}\n\n// checkCRLF records an error unless the two bytes read after the chunk data are CR LF.\nfunc (r *chunkedReader) checkCRLF() {\n\tif r.buf[0] != '\\r' || r.buf[1] != '\\n' {\n\t\tr.err = errors.New(\"malformed chunked encoding\")\n\t}\n}\n"},
+			{Name: "silent-read-chunk-done-helper", Silent: true, File: "bfe_http/chunked.go", Old: "\tif cr.n == 0 && cr.err == nil {\n\t\t// end of chunk (CRLF)\n\t\tif _, cr.err = io.ReadFull(cr.r, cr.buf[:]); cr.err == nil {\n\t\t\tif cr.buf[0] != '\\r' || cr.buf[1] != '\\n' {\n\t\t\t\tcr.err = errors.New(\"malformed chunked encoding\")\n\t\t\t}\n\t\t}\n\t}\n\treturn n, cr.err\n}\n", New: "\tif cr.chunkDone() {\n\t\t// end of chunk (CRLF)\n\t\tif _, cr.err = io.ReadFull(cr.r, cr.buf[:]); cr.err == nil {\n\t\t\tif cr.buf[0] != '\\r' || cr.buf[1] != '\\n' {\n\t\t\t\tcr.err = errors.New(\"malformed chunked encoding\")\n\t\t\t}\n\t\t}\n\t}\n\treturn n, cr.err\n}\n\n// chunkDone reports whether the data of the current chunk was returned completely.\nfunc (cr *chunkedReader) chunkDone() bool {\n\treturn cr.n == 0 && cr.err == nil\n}\n"},
+			{Name: "silent-hex-index-loop-check-first", Silent: true, File: "bfe_http/chunked.go", Old: "\tfor i, b := range v {\n\t\tif i == 16 {\n\t\t\treturn 0, errors.New(\"http chunk length too large\")\n\t\t}\n", New: "\tfor i := 0; i < len(v); i++ {\n\t\tif i >= 16 {\n\t\t\treturn 0, errors.New(\"http chunk length too large\")\n\t\t}\n\t\tb := v[i]\n"},
+			{Name: "silent-read-begin-guard-lt1-and-defensive-check", Silent: true, File: "bfe_http/chunked.go", Old: "\tif cr.n == 0 {\n\t\tcr.beginChunk()\n\t\tif cr.err != nil {\n\t\t\treturn 0, cr.err\n\t\t}\n\t}\n\tif uint64(len(b)) > cr.n {\n\t\tb = b[0:cr.n]\n\t}\n", New: "\tif cr.n < 1 {\n\t\tcr.beginChunk()\n\t\tif cr.err != nil {\n\t\t\treturn 0, cr.err\n\t\t}\n\t}\n\tif uint64(len(b)) > cr.n {\n\t\tb = b[0:cr.n]\n\t}\n\tif uint64(len(b)) > cr.n {\n\t\t// cannot happen: b was clamped above\n\t\treturn 0, errors.New(\"chunked reader: buffer not clamped\")\n\t}\n"},
+			{Name: "silent-begin-chunk-parse-in-helper", Silent: true, File: "bfe_http/chunked.go", Old: "\tcr.n, cr.err = parseHexUint(line)\n\tif cr.err != nil {\n\t\treturn\n\t}\n\tif cr.n == 0 {\n\t\tcr.err = io.EOF\n\t}\n}\n", New: "\tcr.setChunkSize(line)\n}\n\n// setChunkSize parses the chunk-size line; size 0 is the last chunk.\nfunc (rd *chunkedReader) setChunkSize(sizeLine []byte) {\n\trd.n, rd.err = parseHexUint(sizeLine)\n\tif rd.err == nil && rd.n == 0 {\n\t\trd.err = io.EOF\n\t}\n}\n"},
 			{Name: "hex-upper-bound-g", File: "bfe_http/chunked.go", Old: "case 'a' <= b && b <= 'f':", New: "case 'a' <= b && b <= 'g':", Expect: "hex-digit|parseHexUint:other"},
 			{Name: "hex-value-off", File: "bfe_http/chunked.go", Old: "b = b - 'A' + 10", New: "b = b - 'A' + 9", Expect: "hex-digit|parseHexUint:A-F"},
 			{Name: "hex-shift-3", File: "bfe_http/chunked.go", Old: "		n <<= 4\n", New: "		n <<= 3\n", Expect: "hex-digit|parseHexUint"},
@@ -67,46 +72,6 @@ func c23LoadOf(v ssa.Value, path string) bool {
 	return ok && u.Op == token.MUL && core.Render(u.X) == path
 }
 
-// c23Rx renders values with the receiver's actual name replaced by the name
-// the rule tables use, so that renaming the receiver does not change verdicts.
-type c23Rx struct{ recv, canon string }
-
-func c23NewRx(fn *ssa.Function, canon string) c23Rx {
-	if len(fn.Params) == 0 {
-		return c23Rx{canon, canon}
-	}
-	return c23Rx{fn.Params[0].Name(), canon}
-}
-
-func (r c23Rx) S(s string) string {
-	if r.recv == r.canon || r.recv == "" {
-		return s
-	}
-	var out strings.Builder
-	isId := func(b byte) bool {
-		return b == '_' || b >= '0' && b <= '9' || b >= 'a' && b <= 'z' || b >= 'A' && b <= 'Z'
-	}
-	for i := 0; i < len(s); {
-		if strings.HasPrefix(s[i:], r.recv) && (i == 0 || !isId(s[i-1])) && i+len(r.recv) < len(s) && (s[i+len(r.recv)] == '.' || s[i+len(r.recv)] == '[') {
-			out.WriteString(r.canon)
-			i += len(r.recv)
-			continue
-		}
-		out.WriteByte(s[i])
-		i++
-	}
-	return out.String()
-}
-
-func (r c23Rx) R(v ssa.Value) string { return r.S(core.Render(v)) }
-
-func (r c23Rx) LoadOf(v ssa.Value, path string) bool {
-	u, ok := v.(*ssa.UnOp)
-	return ok && u.Op == token.MUL && r.R(u.X) == path
-}
-
-func (r c23Rx) Atom(e c23Event) string { return r.S(c23Atom(e)) }
-
 func c23IsErrorReturn(out h1aOutcome, fx *h1aFacts) bool {
 	if out.Kind != "return" || out.Ret == nil || len(out.Vals) == 0 {
 		return false
@@ -143,6 +108,10 @@ func runC23(c *core.Ctx) {
 		c.Missing(pkg)
 		return
 	}
+	defer h1rRegister(c.P)()
+	h1rAnchors(c.P, pkg, "parseHexUint", "chunkedReader.beginChunk", "chunkedReader.Read", "readLine", "trimTrailingWhitespace", "isASCIISpace",
+		"readTransfer", "newChunkedReader", "newChunkedWriter", "chunked", "body.readLocked", "body.readTrailer",
+		"chunkedWriter.Write", "chunkedWriter.Close", "transferWriter.WriteBody")
 	fx := h1aNewFacts()
 	c23ParseHex(c, fx)
 	c23BeginChunk(c, fx)
@@ -216,11 +185,22 @@ func c23ParseHex(c *core.Ctx, fx *h1aFacts) {
 		return env
 	}
 	ev := &h1aEvaluator{Global: h1aTableResolver(c)}
+	// one iteration is folded from the loop header (the block of the accumulator
+	// phi) back to it, with the loop-carried values and the current byte bound:
+	// tests placed before or after the load of the byte, in a range loop or in
+	// an index loop, are all on that way
+	header := acc.Block()
+	var bodyEntry *ssa.BasicBlock
+	for _, s := range header.Succs {
+		if s != header && (s == eb || s.Dominates(eb)) {
+			bodyEntry = s
+		}
+	}
 	fold := func(b int, iter int64, accVal uint64) h1aOutcome {
 		env := seedsAt(iter, accVal)
 		// values the loop header derives from the seeded phis (the range index i = phi + 1)
 		nphi := 0
-		for _, in := range acc.Block().Instrs {
+		for _, in := range header.Instrs {
 			if _, ok := in.(*ssa.Phi); !ok {
 				break
 			}
@@ -231,11 +211,14 @@ func c23ParseHex(c *core.Ctx, fx *h1aFacts) {
 		for k := range env {
 			ev.Seeded[k] = true
 		}
-		ev.Run(acc.Block(), nphi, nil, env, func(*ssa.BasicBlock) bool { return true }, 0)
+		ev.Run(header, nphi, nil, env, func(*ssa.BasicBlock) bool { return true }, 0)
 		ev.Seeded = map[ssa.Value]bool{elem: true}
 		env[elem] = h1aV{k: 'i', u: uint64(b)}
 		ev.steps = 0
-		return ev.Run(eb, h1aIdx(elem.(ssa.Instruction))+1, nil, env, func(to *ssa.BasicBlock) bool { return to.Dominates(eb) }, 0)
+		if bodyEntry == nil || eb == header {
+			return ev.Run(eb, h1aIdx(elem.(ssa.Instruction))+1, nil, env, func(to *ssa.BasicBlock) bool { return to.Dominates(eb) }, 0)
+		}
+		return ev.Run(bodyEntry, 0, header, env, func(to *ssa.BasicBlock) bool { return to == header }, 0)
 	}
 	const acc0 = 0x1234
 	classes := []struct {
@@ -286,7 +269,7 @@ func c23ParseHex(c *core.Ctx, fx *h1aFacts) {
 		for k := range env {
 			ev2.Seeded[k] = true
 		}
-		return ev2.Run(fn.Blocks[0], 0, nil, env, func(to *ssa.BasicBlock) bool { return to == eb }, 0)
+		return ev2.Run(fn.Blocks[0], 0, nil, env, func(to *ssa.BasicBlock) bool { return to == eb || to == bodyEntry }, 0)
 	}
 	out17 := fold('1', 16, 0x0123456789abcdef)
 	pre17 := foldEntry(17)
@@ -345,10 +328,14 @@ func c23BeginChunk(c *core.Ctx, fx *h1aFacts) {
 		return
 	}
 	c.Analysed(core.FuncKey(fn))
-	rx := c23NewRx(fn, "cr")
+	if len(fn.Params) == 0 {
+		c.Check("begin-chunk", "beginChunk:shape", fn.Pos(), false, "beginChunk is no longer a method of the chunked reader")
+		return
+	}
+	recv := ssa.Value(fn.Params[0])
 	c.Min("begin-chunk", 6)
-	parses := core.Calls(fn, pkg+".parseHexUint")
-	lines := core.Calls(fn, pkg+".readLine")
+	parses := h1rRegionCalls(fn, pkg+".parseHexUint")
+	lines := h1rRegionCalls(fn, pkg+".readLine")
 	if len(parses) != 1 || len(lines) != 1 {
 		c.Check("begin-chunk", "beginChunk:shape", fn.Pos(), false, fmt.Sprintf("expected one readLine and one parseHexUint call, found %d and %d", len(lines), len(parses)))
 		return
@@ -359,29 +346,28 @@ func c23BeginChunk(c *core.Ctx, fx *h1aFacts) {
 		c.Check("begin-chunk", "beginChunk:shape", fn.Pos(), false, "readLine/parseHexUint are not plain calls")
 		return
 	}
-	c.Check("begin-chunk", "beginChunk:line-source", line.Pos(), rx.R(line.Call.Args[0]) == "cr.r",
+	c.Check("begin-chunk", "beginChunk:line-source", line.Pos(), h1rLoadOfField(line.Call.Args[0], recv, "r"),
 		"the size line is read from "+core.Render(line.Call.Args[0])+", expected the chunked reader's own buffered reader cr.r")
 	c.Check("begin-chunk", "beginChunk:line-parsed", parse.Pos(), h1aIsResultOf(parse.Call.Args[0], line, 0),
-		"parseHexUint is applied to "+core.Render(h1aResolve(parse.Call.Args[0]))+", expected the line returned by readLine")
+		"parseHexUint is applied to "+core.Render(h1aRes(parse.Call.Args[0]))+", expected the line returned by readLine")
 	pf := fx.At(parse.Block())
 	c.Check("begin-chunk", "beginChunk:line-error-tested", parse.Pos(), h1aErrIs(pf, line, 1, true),
 		"parseHexUint runs although readLine's error was not tested to be nil; facts here: "+strings.Join(h1aFactStrs(pf), " && "))
 	// stores
-	nStores, sizeStored, lineErrStored, parseErrStored := 0, false, false, false
-	core.Instrs(fn, func(in ssa.Instruction) {
+	sizeStored, lineErrStored, parseErrStored := false, false, false
+	h1rRegionInstrs(fn, func(in ssa.Instruction) {
 		st, ok := in.(*ssa.Store)
 		if !ok {
 			return
 		}
-		switch rx.R(st.Addr) {
-		case "cr.n":
-			nStores++
+		switch {
+		case h1rFieldIs(st.Addr, recv, "n"):
 			if h1aIsResultOf(st.Val, parse, 0) {
 				sizeStored = true
 			} else {
 				c.Check("begin-chunk", "beginChunk:size-store", st.Pos(), false, "cr.n is set to "+core.Render(st.Val)+", expected only the value parsed by parseHexUint")
 			}
-		case "cr.err":
+		case h1rFieldIs(st.Addr, recv, "err"):
 			switch {
 			case h1aIsResultOf(st.Val, line, 1):
 				lineErrStored = true
@@ -390,7 +376,9 @@ func c23BeginChunk(c *core.Ctx, fx *h1aFacts) {
 			case c23LoadOf(st.Val, "io.EOF"):
 				f := fx.At(st.Block())
 				okErr := h1aErrIs(f, parse, 1, true)
-				okZero := h1aHasCmp(f, func(v ssa.Value) bool { return h1aIsResultOf(v, parse, 0) }, h1aOpIs(token.EQL), func(v ssa.Value) bool { k, ok := h1aConstInt(v); return ok && k == 0 })
+				okZero := h1aHasCmp(f, func(v ssa.Value) bool { return h1aIsResultOf(v, parse, 0) }, h1aOpIs(token.EQL), func(v ssa.Value) bool { k, ok := h1aConstInt(v); return ok && k == 0 }) ||
+					h1aHasCmp(f, func(v ssa.Value) bool { return h1aIsResultOf(v, parse, 0) }, h1aOpIs(token.LSS), func(v ssa.Value) bool { k, ok := h1aConstInt(v); return ok && k == 1 }) ||
+					h1aHasCmp(f, func(v ssa.Value) bool { return h1aIsResultOf(v, parse, 0) }, h1aOpIs(token.LEQ), func(v ssa.Value) bool { k, ok := h1aConstInt(v); return ok && k == 0 })
 				c.Check("begin-chunk", "beginChunk:eof-store", st.Pos(), okErr && okZero,
 					"io.EOF (end of body) is stored although it is not established that parseHexUint succeeded and returned 0; facts: "+strings.Join(h1aFactStrs(f), " && "))
 			default:
@@ -405,54 +393,86 @@ func c23BeginChunk(c *core.Ctx, fx *h1aFacts) {
 
 // ------------------------------------------------------------ Read
 
-type c23Event struct {
-	In   ssa.Instruction
-	Cond ssa.Value
-	Pol  bool
-}
-
-func c23Events(p *core.Path) []c23Event {
-	var out []c23Event
-	for i, b := range p.Blocks {
-		for _, in := range b.Instrs {
-			out = append(out, c23Event{In: in})
-		}
-		if i+1 < len(p.Blocks) {
-			if ifi, ok := b.Instrs[len(b.Instrs)-1].(*ssa.If); ok && b.Succs[0] != b.Succs[1] {
-				cond, pol := ifi.Cond, b.Succs[0] == p.Blocks[i+1]
-				for {
-					u, ok := cond.(*ssa.UnOp)
-					if !ok || u.Op != token.NOT {
-						break
-					}
-					cond, pol = u.X, !pol
-				}
-				out = append(out, c23Event{Cond: cond, Pol: pol})
-			}
-		}
-	}
-	return out
-}
-
-// c23Atom renders an edge condition without resolving loads: "cr.n == 0".
-func c23Atom(e c23Event) string {
-	bo, ok := e.Cond.(*ssa.BinOp)
+// c23Atom classifies a resolved branch condition taken with polarity pol as a
+// statement about the chunked reader obj: "err==nil", "err!=nil", "n==0",
+// "n!=0", "buf[i]==k", "buf[i]!=k", "buf==CRLF", "buf!=CRLF"; "" otherwise.
+// The operator is taken with the polarity folded in, operands in either order;
+// for the unsigned counter `n > 0`, `n >= 1` are `n != 0` and `n < 1`,
+// `n <= 0` are `n == 0`.
+func c23Atom(cond ssa.Value, pol bool, obj ssa.Value) string {
+	bo, ok := cond.(*ssa.BinOp)
 	if !ok {
-		if e.Pol {
-			return core.Render(e.Cond)
-		}
-		return "!" + core.Render(e.Cond)
+		return ""
 	}
 	op := bo.Op
-	if !e.Pol {
+	switch op {
+	case token.EQL, token.NEQ, token.LSS, token.LEQ, token.GTR, token.GEQ:
+	default:
+		return ""
+	}
+	if !pol {
 		op = h1aNegate(op)
 	}
 	x, y := bo.X, bo.Y
-	if _, xc := x.(*ssa.Const); xc {
+	if _, xc := core.StripConv(x).(*ssa.Const); xc {
 		x, y = y, x
 		op = h1aFlip(op)
 	}
-	return core.Render(x) + " " + op.String() + " " + core.Render(y)
+	eq := func(o token.Token) string {
+		if o == token.EQL {
+			return "=="
+		}
+		return "!="
+	}
+	switch {
+	case h1rLoadOfField(x, obj, "err") && h1aIsNil(y) && (op == token.EQL || op == token.NEQ):
+		return "err" + eq(op) + "nil"
+	case h1rLoadOfField(x, obj, "n"):
+		k, isK := h1aConstInt(y)
+		if !isK {
+			return ""
+		}
+		switch {
+		case k == 0 && (op == token.EQL || op == token.LEQ), k == 1 && op == token.LSS:
+			return "n==0"
+		case k == 0 && (op == token.NEQ || op == token.GTR), k == 1 && op == token.GEQ:
+			return "n!=0"
+		}
+		return ""
+	}
+	if op != token.EQL && op != token.NEQ {
+		return ""
+	}
+	// cr.buf[i] ==/!= k
+	if u, ok := core.StripConv(x).(*ssa.UnOp); ok && u.Op == token.MUL {
+		if ia, ok := u.X.(*ssa.IndexAddr); ok && h1rFieldIs(ia.X, obj, "buf") {
+			i, okI := h1aConstInt(ia.Index)
+			k, okK := h1aConstInt(y)
+			if okI && okK {
+				return fmt.Sprintf("buf[%d]%s%d", i, eq(op), k)
+			}
+		}
+	}
+	// string(cr.buf[:]) ==/!= "\r\n"
+	if cv, ok := x.(*ssa.Convert); ok {
+		if sl, ok := cv.X.(*ssa.Slice); ok && sl.Low == nil && sl.High == nil && h1rFieldIs(sl.X, obj, "buf") {
+			if s, isS := core.ConstString(y); isS && s == "\r\n" {
+				return "buf" + eq(op) + "CRLF"
+			}
+		}
+	}
+	return ""
+}
+
+// c23FactAtoms lists the atoms (see c23Atom) among the facts.
+func c23FactAtoms(fs []h1aFact, obj ssa.Value) map[string]h1aFact {
+	out := map[string]h1aFact{}
+	for _, f := range fs {
+		if a := c23Atom(f.Cond, f.Pol, obj); a != "" {
+			out[a] = f
+		}
+	}
+	return out
 }
 
 func c23Read(c *core.Ctx, fx *h1aFacts) {
@@ -463,14 +483,22 @@ func c23Read(c *core.Ctx, fx *h1aFacts) {
 		return
 	}
 	c.Analysed(core.FuncKey(fn))
-	rx := c23NewRx(fn, "cr")
 	c.Min("read-guard", 4)
 	c.Min("read-clamp", 1)
 	c.Min("read-consume", 2)
 	c.Min("read-crlf", 2)
-	begins := core.Calls(fn, pkg+".chunkedReader.beginChunk")
-	reads := core.Calls(fn, "bfe_bufio.Reader.Read")
-	fulls := core.Calls(fn, "io.ReadFull")
+	if len(fn.Params) != 2 {
+		c.Check("read-guard", "Read:shape", fn.Pos(), false, "chunkedReader.Read no longer has the io.Reader signature")
+		return
+	}
+	recv := ssa.Value(fn.Params[0])
+	region := h1rRegion(fn)
+	for _, g := range region {
+		c.Analysed(core.FuncKey(g))
+	}
+	begins := h1rRegionCalls(fn, pkg+".chunkedReader.beginChunk")
+	reads := h1rRegionCalls(fn, "bfe_bufio.Reader.Read")
+	fulls := h1rRegionCalls(fn, "io.ReadFull")
 	if len(begins) != 1 || len(reads) != 1 || len(fulls) != 1 {
 		c.Check("read-guard", "Read:shape", fn.Pos(), false, fmt.Sprintf("expected one call each of beginChunk, (*bfe_bufio.Reader).Read and io.ReadFull, found %d, %d, %d", len(begins), len(reads), len(fulls)))
 		return
@@ -482,26 +510,23 @@ func c23Read(c *core.Ctx, fx *h1aFacts) {
 		c.Check("read-guard", "Read:shape", fn.Pos(), false, "deferred or go calls where plain calls were expected")
 		return
 	}
+	// the sticky error: a fact `cr.err == nil` whose load sees the state left by
+	// the previous Read (nothing that may write cr.err runs between the entry of
+	// Read and the load)
 	isInitialErrNil := func(fs []h1aFact) bool {
 		for _, f := range fs {
-			bo, ok := f.Cond.(*ssa.BinOp)
-			if !ok {
+			if c23Atom(f.Cond, f.Pol, recv) != "err==nil" {
 				continue
 			}
-			x, op, y, ok := f.Cmp()
-			if !ok || op != token.EQL || !h1aIsNil(y) {
-				continue
-			}
-			// the load must be of cr.err with no earlier store/call: the state left by the previous Read
-			if rx.LoadOf(x, "cr.err") && (rx.LoadOf(bo.X, "cr.err") || rx.LoadOf(bo.Y, "cr.err")) {
-				ld := x.(*ssa.UnOp)
-				clean := true
-				for _, in := range ld.Block().Instrs[:h1aIdx(ld)] {
-					if _, isCall := in.(*ssa.Call); isCall {
-						clean = false
-					}
+			bo := f.Cond.(*ssa.BinOp)
+			for _, o := range []ssa.Value{bo.X, bo.Y} {
+				ld, ok := core.StripConv(o).(*ssa.UnOp)
+				if !ok || !h1rLoadOfField(ld, recv, "err") || ld.Parent() != fn {
+					continue
 				}
-				if clean && ld.Block() == fn.Blocks[0] {
+				dirty := core.ReachAvoiding(fn, nil, func(in ssa.Instruction) bool { return in == ssa.Instruction(ld) },
+					func(in ssa.Instruction) bool { return h1rMayWriteField(in, recv, "err") })
+				if dirty == nil {
 					return true
 				}
 			}
@@ -517,8 +542,8 @@ func c23Read(c *core.Ctx, fx *h1aFacts) {
 	}
 	// beginChunk only between chunks
 	bf := fx.At(begin.Block())
-	c.Check("read-guard", "Read:begin-on-zero", begin.Pos(),
-		h1aHasCmp(bf, func(v ssa.Value) bool { return rx.LoadOf(v, "cr.n") }, h1aOpIs(token.EQL), func(v ssa.Value) bool { k, ok := h1aConstInt(v); return ok && k == 0 }),
+	_, onZero := c23FactAtoms(bf, recv)["n==0"]
+	c.Check("read-guard", "Read:begin-on-zero", begin.Pos(), onZero,
 		"beginChunk is called although cr.n == 0 is not established: a size line would be parsed in the middle of chunk data; facts: "+strings.Join(h1aFactStrs(bf), " && "))
 	// path rules
 	type pathBad struct{ beginErr, consume, crlfMissing, crlfUnchecked string }
@@ -526,30 +551,33 @@ func c23Read(c *core.Ctx, fx *h1aFacts) {
 	nPaths, nFull := 0, 0
 	isSubStore := func(in ssa.Instruction) bool {
 		st, ok := in.(*ssa.Store)
-		if !ok || rx.R(st.Addr) != "cr.n" {
+		if !ok || !h1rFieldIs(st.Addr, recv, "n") {
 			return false
 		}
 		bo, ok := st.Val.(*ssa.BinOp)
-		if !ok || bo.Op != token.SUB || !rx.LoadOf(bo.X, "cr.n") {
+		if !ok || bo.Op != token.SUB || !h1rLoadOfField(bo.X, recv, "n") {
 			return false
 		}
 		return h1aIsResultOf(core.StripConv(bo.Y), read, 0)
 	}
-	complete := core.EnumPaths(fn, 1, 4000, func(p *core.Path) {
+	inRegion := map[*ssa.Function]bool{}
+	for _, g := range region {
+		inRegion[g] = true
+	}
+	complete := h1rEventPaths(fn, func(h *ssa.Function) bool { return inRegion[h] && h != fn }, 4000, func(p *h1rPath) {
 		nPaths++
-		evs := c23Events(p)
 		sawBegin, beginTested := false, false
 		sawRead, sawSub := false, false
 		zero, errNil := false, false
-		sawFull, fullOK, fullFailed, errStored, cr, lf := false, false, false, false, false, false
-		for _, e := range evs {
+		sawFull, fullFailed, errStored, cr, lf := false, false, false, false, false
+		for _, e := range p.Evs {
 			if e.In != nil {
 				switch {
 				case e.In == ssa.Instruction(begin):
 					sawBegin = true
 				case e.In == ssa.Instruction(read):
 					if sawBegin && !beginTested && bad.beginErr == "" {
-						bad.beginErr = pathSig(p)
+						bad.beginErr = p.Sig()
 					}
 					sawRead = true
 				case isSubStore(e.In):
@@ -557,43 +585,42 @@ func c23Read(c *core.Ctx, fx *h1aFacts) {
 				case e.In == ssa.Instruction(full):
 					sawFull = true
 				}
-				if st, ok := e.In.(*ssa.Store); ok && sawFull && e.In != ssa.Instruction(full) && rx.R(st.Addr) == "cr.err" && !h1aIsResultOf(st.Val, full, 1) && h1aNonNilErr(st.Val, nil, nil) {
+				if st, ok := e.In.(*ssa.Store); ok && sawFull && h1rFieldIs(st.Addr, recv, "err") && !h1aIsResultOf(st.Val, full, 1) && h1aNonNilErr(p.Res(st.Val), nil, nil) {
 					errStored = true
 				}
 				continue
 			}
-			a := rx.Atom(e)
+			a := c23Atom(e.Cond, e.Pol, recv)
 			switch {
-			case sawBegin && !sawRead && a == "cr.err == nil":
+			case sawBegin && !sawRead && a == "err==nil":
 				beginTested = true
-			case sawSub && !sawFull && a == "cr.n == 0":
+			case sawSub && !sawFull && a == "n==0":
 				zero = true
-			case sawSub && !sawFull && a == "cr.err == nil":
+			case sawSub && !sawFull && a == "err==nil":
 				errNil = true
-			case sawFull && a == "cr.err == nil":
-				fullOK = true
-			case sawFull && a == "cr.err != nil":
+			case sawFull && a == "err!=nil":
 				fullFailed = true
-			case sawFull && a == "cr.buf[0] == 13":
+			case sawFull && a == "buf[0]==13":
 				cr = true
-			case sawFull && a == "cr.buf[1] == 10":
+			case sawFull && a == "buf[1]==10":
 				lf = true
+			case sawFull && a == "buf==CRLF":
+				cr, lf = true, true
 			}
 		}
-		if _, isRet := p.Last().(*ssa.Return); !isRet {
+		if _, isRet := p.Last.(*ssa.Return); !isRet {
 			return
 		}
 		if sawRead && !sawSub && bad.consume == "" {
-			bad.consume = pathSig(p)
+			bad.consume = p.Sig()
 		}
 		if zero && errNil && !sawFull && bad.crlfMissing == "" {
-			bad.crlfMissing = pathSig(p)
+			bad.crlfMissing = p.Sig()
 		}
 		if sawFull {
 			nFull++
-			_ = fullOK
 			if !fullFailed && !errStored && !(cr && lf) && bad.crlfUnchecked == "" {
-				bad.crlfUnchecked = pathSig(p)
+				bad.crlfUnchecked = p.Sig()
 			}
 		}
 	})
@@ -603,50 +630,58 @@ func c23Read(c *core.Ctx, fx *h1aFacts) {
 	}
 	c.Note("chunkedReader.Read: %d feasible paths, %d through the CRLF read", nPaths, nFull)
 	c.Check("read-guard", "Read:begin-error-tested", begin.Pos(), bad.beginErr == "", "a path reads chunk data after beginChunk without testing cr.err (malformed size line or end of body ignored); branches: "+bad.beginErr)
-	// clamp
-	arg := read.Call.Args[1]
-	var edges []ssa.Value
-	var preds []*ssa.BasicBlock
-	if phi, ok := arg.(*ssa.Phi); ok {
-		edges, preds = phi.Edges, phi.Block().Preds
-	} else {
-		edges, preds = []ssa.Value{arg}, []*ssa.BasicBlock{nil}
+	// clamp: every value the buffer handed to the underlying reader can be (phi
+	// edges, values returned by a helper that does the clamping), with the
+	// facts that hold where that value is chosen
+	isBuf := func(v ssa.Value) bool { return h1aRes(v) == ssa.Value(fn.Params[1]) }
+	type clampLeaf struct {
+		v  ssa.Value
+		fs []h1aFact
 	}
-	for i, e := range edges {
+	var leaves []clampLeaf
+	var collect func(v ssa.Value, fs []h1aFact, d int)
+	collect = func(v ssa.Value, fs []h1aFact, d int) {
+		v = h1aRes(v)
+		if d < 4 {
+			if phi, ok := v.(*ssa.Phi); ok {
+				for i, e := range phi.Edges {
+					collect(e, append(append([]h1aFact{}, fs...), fx.Edge(phi.Block().Preds[i], phi.Block())...), d+1)
+				}
+				return
+			}
+			if call, ok := v.(*ssa.Call); ok {
+				if h := call.Call.StaticCallee(); h != nil && inRegion[h] && h != fn && call.Call.Signature().Results().Len() == 1 {
+					for _, r := range core.Returns(h) {
+						collect(core.RetVals(r)[0], append(append([]h1aFact{}, fs...), fx.At(r.Block())...), d+1)
+					}
+					return
+				}
+			}
+		}
+		leaves = append(leaves, clampLeaf{v, fs})
+	}
+	collect(read.Call.Args[1], fx.At(read.Block()), 0)
+	for i, lf := range leaves {
 		ok := false
-		why := core.Render(e)
-		switch x := e.(type) {
+		why := core.Render(lf.v)
+		switch x := lf.v.(type) {
 		case *ssa.Slice:
 			lowOK := x.Low == nil
 			if k, isK := h1aConstInt(x.Low); x.Low != nil && isK && k == 0 {
 				lowOK = true
 			}
-			ok = lowOK && x.High != nil && rx.LoadOf(core.StripConv(x.High), "cr.n") && x.X == ssa.Value(fn.Params[1])
+			ok = lowOK && x.High != nil && h1rLoadOfField(x.High, recv, "n") && isBuf(x.X)
 		case *ssa.Parameter:
-			var fs []h1aFact
-			if preds[i] != nil {
-				fs = fx.Edge(preds[i], arg.(*ssa.Phi).Block())
-			} else {
-				fs = fx.At(read.Block())
-			}
-			ok = h1aHasCmp(fs, func(v ssa.Value) bool {
-				lc, isCall := core.StripConv(v).(*ssa.Call)
-				if !isCall || len(lc.Call.Args) != 1 || lc.Call.Args[0] != ssa.Value(x) {
-					return false
-				}
-				bi, isB := lc.Call.Value.(*ssa.Builtin)
-				return isB && bi.Name() == "len"
-			}, h1aOpIs(token.LEQ, token.LSS), func(v ssa.Value) bool { return rx.LoadOf(v, "cr.n") })
-			why += " without len(b) <= cr.n established (facts: " + strings.Join(h1aFactStrs(fs), " && ") + ")"
+			ok = isBuf(x) && h1aHasCmp(lf.fs, func(v ssa.Value) bool { return h1rIsLenOf(v, isBuf) },
+				h1aOpIs(token.LEQ, token.LSS), func(v ssa.Value) bool { return h1rLoadOfField(v, recv, "n") })
+			why += " without len(b) <= cr.n established (facts: " + strings.Join(h1aFactStrs(lf.fs), " && ") + ")"
 		}
 		c.Check("read-clamp", fmt.Sprintf("Read:buffer#%d", i), read.Pos(), ok, "the buffer handed to the underlying reader is "+why+": more than the rest of the chunk could be returned as data")
 	}
 	// consume
 	c.Check("read-consume", "Read:every-path", read.Pos(), bad.consume == "", "a path returns after reading data without `cr.n -= uint64(n)` (n = bytes read): the chunk boundary is lost; branches: "+bad.consume)
-	nStores := 0
-	core.Instrs(fn, func(in ssa.Instruction) {
-		if st, ok := in.(*ssa.Store); ok && rx.R(st.Addr) == "cr.n" {
-			nStores++
+	h1rRegionInstrs(fn, func(in ssa.Instruction) {
+		if st, ok := in.(*ssa.Store); ok && h1rFieldIs(st.Addr, recv, "n") {
 			c.Check("read-consume", "Read:cr.n-store", st.Pos(), isSubStore(in), "cr.n is set to "+core.Render(st.Val)+" in Read; only cr.n - uint64(bytes read) keeps the chunk accounting")
 		}
 	})
@@ -662,14 +697,14 @@ func c23Read(c *core.Ctx, fx *h1aFacts) {
 	}
 	// crlf
 	bufOK := false
-	if sl, ok := full.Call.Args[1].(*ssa.Slice); ok && sl.Low == nil && sl.High == nil && rx.R(sl.X) == "cr.buf" {
+	if sl, ok := h1aRes(full.Call.Args[1]).(*ssa.Slice); ok && sl.Low == nil && sl.High == nil && h1rFieldIs(sl.X, recv, "buf") {
 		if pt, ok := sl.X.Type().Underlying().(*types.Pointer); ok {
 			if at, ok := pt.Elem().Underlying().(*types.Array); ok && at.Len() == 2 {
 				bufOK = true
 			}
 		}
 	}
-	c.Check("read-crlf", "Read:two-bytes-from-conn", full.Pos(), bufOK && rx.R(full.Call.Args[0]) == "cr.r",
+	c.Check("read-crlf", "Read:two-bytes-from-conn", full.Pos(), bufOK && h1rLoadOfField(h1aRes(full.Call.Args[0]), recv, "r"),
 		"the chunk terminator must be read as exactly two bytes from cr.r into cr.buf; reads "+core.Render(full.Call.Args[1])+" from "+core.Render(full.Call.Args[0]))
 	c.Check("read-crlf", "Read:read-at-chunk-end", full.Pos(), bad.crlfMissing == "" && nFull > 0, "a path ends a chunk (cr.n == 0, no error) without reading the CRLF that must follow the chunk data; branches: "+bad.crlfMissing)
 	c.Check("read-crlf", "Read:compared", full.Pos(), bad.crlfUnchecked == "" && nFull > 0, "a path reads the two bytes after the chunk data and returns without error although they were not both compared equal to CR and LF; branches: "+bad.crlfUnchecked)
@@ -687,7 +722,7 @@ func c23ReadLine(c *core.Ctx, fx *h1aFacts) {
 	c.Analysed(core.FuncKey(fn))
 	c.Min("readline", 5)
 	c.Min("trim", 3)
-	rs := core.Calls(fn, "bfe_bufio.Reader.ReadSlice")
+	rs := h1rRegionCalls(fn, "bfe_bufio.Reader.ReadSlice")
 	if len(rs) != 1 {
 		c.Check("readline", "readLine:shape", fn.Pos(), false, fmt.Sprintf("expected one ReadSlice call, found %d", len(rs)))
 		return
@@ -697,7 +732,7 @@ func c23ReadLine(c *core.Ctx, fx *h1aFacts) {
 		return
 	}
 	k, isK := h1aConstInt(call.Call.Args[1])
-	c.Check("readline", "readLine:delimiter", call.Pos(), isK && k == '\n' && call.Call.Args[0] == ssa.Value(fn.Params[0]), "the size line must be read from the given reader up to LF; delimiter "+core.Render(call.Call.Args[1]))
+	c.Check("readline", "readLine:delimiter", call.Pos(), isK && k == '\n' && h1aRes(call.Call.Args[0]) == ssa.Value(fn.Params[0]), "the size line must be read from the given reader up to LF; delimiter "+core.Render(call.Call.Args[1]))
 	maxLen := int64(-1)
 	if k, ok := c.P.Obj(pkg, "maxLineLength").(*types.Const); ok {
 		if v, ok := constant.Int64Val(k.Val()); ok {
@@ -707,7 +742,7 @@ func c23ReadLine(c *core.Ctx, fx *h1aFacts) {
 		c.Missing(pkg + ".maxLineLength")
 	}
 	nSucc := 0
-	for i, r := range core.Returns(fn) {
+	for i, r := range h1rReturns(fn) {
 		rv := core.RetVals(r)
 		if len(rv) != 2 {
 			continue
@@ -736,9 +771,9 @@ func c23ReadLine(c *core.Ctx, fx *h1aFacts) {
 			}
 			c.Check("readline", "readLine:max-length", r.Pos(), bounded && maxLen > 0, fmt.Sprintf("a line is returned without len(line) < maxLineLength (%d) being established; facts: %s", maxLen, strings.Join(h1aFactStrs(f), " && ")))
 			// value: ReadSlice#0 possibly through trimTrailingWhitespace
-			v := h1aResolve(rv[0])
+			v := h1aRes(rv[0])
 			if tc, ok := v.(*ssa.Call); ok && core.CallIs(&tc.Call, pkg+".trimTrailingWhitespace") {
-				v = h1aResolve(tc.Call.Args[0])
+				v = h1aRes(tc.Call.Args[0])
 			}
 			c.Check("readline", "readLine:line-value", r.Pos(), h1aIsResultOf(v, call, 0), "readLine returns "+core.Render(rv[0])+", expected the bytes returned by ReadSlice (trailing whitespace trimmed)")
 			continue
@@ -874,7 +909,7 @@ func c23Wiring(c *core.Ctx, fx *h1aFacts) {
 		c.Missing(pkg + ".readTransfer")
 	} else {
 		c.Analysed(core.FuncKey(fn))
-		calls := core.Calls(fn, pkg+".newChunkedReader")
+		calls := h1rRegionCalls(fn, pkg+".newChunkedReader")
 		c.Check("wiring", "readTransfer:chunked-reader-installed", fn.Pos(), len(calls) >= 1, "readTransfer never installs newChunkedReader")
 		for i, ci := range calls {
 			call, ok := ci.(*ssa.Call)
@@ -899,15 +934,15 @@ func c23Wiring(c *core.Ctx, fx *h1aFacts) {
 					}
 					fields := c23FieldStores(fa.X)
 					src, hdr, rd := fields["src"], fields["hdr"], fields["r"]
-					okBody = src == ssa.Value(call) && hdr != nil && core.StripConv(hdr) == ssa.Value(fn.Params[0]) && rd == ssa.Value(fn.Params[1]) &&
-						core.StripConv(call.Call.Args[0]) == ssa.Value(fn.Params[1])
+					okBody = src == ssa.Value(call) && hdr != nil && rd != nil && h1aResConv(hdr) == ssa.Value(fn.Params[0]) && h1aResConv(rd) == ssa.Value(fn.Params[1]) &&
+						h1aResConv(call.Call.Args[0]) == ssa.Value(fn.Params[1])
 					why = fmt.Sprintf("body{src: newChunkedReader(%s), hdr: %s, r: %s}: the chunked reader must decode the connection reader r, and hdr must be the message so that the trailer after the last chunk is consumed", core.Render(call.Call.Args[0]), core.Render(hdr), core.Render(rd))
 				}
 			}
 			c.Check("wiring", fmt.Sprintf("readTransfer:chunked-body#%d", i), call.Pos(), okBody, why)
 		}
 		// no other body reader may be installed under chunked
-		for i, ci := range core.Calls(fn, "io.LimitReader") {
+		for i, ci := range h1rRegionCalls(fn, "io.LimitReader") {
 			f := fx.At(ci.(ssa.Instruction).Block())
 			c.Check("wiring", fmt.Sprintf("readTransfer:length-body-not-chunked#%d", i), ci.Pos(), c23ChunkedFact(f, false),
 				"a Content-Length delimited body is installed without chunked(t.TransferEncoding) being false: chunked must take precedence")
@@ -954,8 +989,11 @@ func c23Wiring(c *core.Ctx, fx *h1aFacts) {
 		c.Missing(pkg + ".body.readLocked")
 	} else {
 		c.Analysed(core.FuncKey(fn))
-		rx := c23NewRx(fn, "b")
-		calls := core.Calls(fn, pkg+".body.readTrailer")
+		var recv ssa.Value
+		if len(fn.Params) > 0 {
+			recv = fn.Params[0]
+		}
+		calls := h1rRegionCalls(fn, pkg+".body.readTrailer")
 		c.Check("wiring", "readLocked:trailer-read", fn.Pos(), len(calls) == 1, fmt.Sprintf("expected one readTrailer call in body.readLocked, found %d", len(calls)))
 		for _, ci := range calls {
 			f := fx.At(ci.(ssa.Instruction).Block())
@@ -965,9 +1003,9 @@ func c23Wiring(c *core.Ctx, fx *h1aFacts) {
 					return false
 				}
 				call, ok := ex.Tuple.(*ssa.Call)
-				return ok && call.Call.IsInvoke() && call.Call.Method.Name() == "Read" && rx.R(call.Call.Value) == "b.src"
+				return ok && call.Call.IsInvoke() && call.Call.Method.Name() == "Read" && h1rLoadOfField(call.Call.Value, recv, "src")
 			}, h1aOpIs(token.EQL), func(v ssa.Value) bool { return c23LoadOf(v, "io.EOF") })
-			hdr := h1aHasCmp(f, func(v ssa.Value) bool { return rx.LoadOf(v, "b.hdr") }, h1aOpIs(token.NEQ), h1aIsNil)
+			hdr := h1aHasCmp(f, func(v ssa.Value) bool { return h1rLoadOfField(v, recv, "hdr") }, h1aOpIs(token.NEQ), h1aIsNil)
 			c.Check("wiring", "readLocked:trailer-on-eof", ci.Pos(), eof && hdr, "the trailer is read without `b.src.Read error == io.EOF && b.hdr != nil` being established (it must be consumed exactly once, after the last chunk); facts: "+strings.Join(h1aFactStrs(f), " && "))
 		}
 	}
@@ -976,8 +1014,8 @@ func c23Wiring(c *core.Ctx, fx *h1aFacts) {
 	} else {
 		c.Analysed(core.FuncKey(fn))
 		n := 0
-		for i, r := range core.Returns(fn) {
-			if !h1aIsNil(r.Results[0]) {
+		for i, r := range h1rReturns(fn) {
+			if len(r.Results) != 1 || !h1aIsNil(r.Results[0]) {
 				continue
 			}
 			n++
@@ -988,10 +1026,12 @@ func c23Wiring(c *core.Ctx, fx *h1aFacts) {
 				pk := h1aExtractOf(a0, 0, "bfe_bufio.Reader.Peek")
 				if pk != nil && c23LoadOf(a1, "bfe_http.singleCRLF") {
 					if k, ok := h1aConstInt(pk.Call.Args[1]); ok && k == 2 {
-						// exactly the two bytes are consumed
+						// exactly the two bytes are consumed: the ReadByte calls that are
+						// executed on every way to this return once the two bytes were seen
 						nb := 0
-						for _, in := range r.Block().Instrs {
-							if ci, ok := in.(*ssa.Call); ok && core.CallIs(&ci.Call, "bfe_bufio.Reader.ReadByte") {
+						for _, ci := range h1rRegionCalls(fn, "bfe_bufio.Reader.ReadByte") {
+							in := ci.(ssa.Instruction)
+							if in.Parent() == r.Parent() && (in.Block() == r.Block() || in.Block().Dominates(r.Block())) && h1aBoolCallFact(fx.At(in.Block()), true, "bytes.Equal") == eq {
 								nb++
 							}
 						}
@@ -1000,7 +1040,7 @@ func c23Wiring(c *core.Ctx, fx *h1aFacts) {
 				}
 			}
 			parsed := false
-			for _, ci := range core.Calls(fn, "bfe_net/textproto.Reader.ReadMIMEHeader") {
+			for _, ci := range h1rRegionCalls(fn, "bfe_net/textproto.Reader.ReadMIMEHeader") {
 				if call, ok := ci.(*ssa.Call); ok && h1aErrIs(f, call, 1, true) {
 					parsed = true
 				}
@@ -1049,12 +1089,16 @@ func c23Encoder(c *core.Ctx, fx *h1aFacts) {
 		c.Missing(pkg + ".chunkedWriter.Write")
 	} else {
 		c.Analysed(core.FuncKey(fn))
-		rx := c23NewRx(fn, "cw")
-		fps := core.Calls(fn, "fmt.Fprintf")
+		var recv ssa.Value
+		if len(fn.Params) > 0 {
+			recv = fn.Params[0]
+		}
+		isWire := func(v ssa.Value) bool { return h1rLoadOfField(h1aRes(v), recv, "Wire") }
+		fps := h1rRegionCalls(fn, "fmt.Fprintf")
 		var wr, ws ssa.CallInstruction
-		for _, ci := range core.AllCalls(fn) {
+		for _, ci := range h1rRegionAllCalls(fn) {
 			cc := ci.Common()
-			if cc.IsInvoke() && cc.Method.Name() == "Write" && rx.R(cc.Value) == "cw.Wire" {
+			if cc.IsInvoke() && cc.Method.Name() == "Write" && isWire(cc.Value) {
 				wr = ci
 			}
 			if core.CallIs(cc, "io.WriteString") {
@@ -1068,22 +1112,23 @@ func c23Encoder(c *core.Ctx, fx *h1aFacts) {
 			f := fx.At(fp.(ssa.Instruction).Block())
 			isLenData := func(v ssa.Value) bool {
 				lc, ok := core.StripConv(v).(*ssa.Call)
-				if !ok || len(lc.Call.Args) != 1 || lc.Call.Args[0] != ssa.Value(fn.Params[1]) {
+				if !ok || len(lc.Call.Args) != 1 || h1aRes(lc.Call.Args[0]) != ssa.Value(fn.Params[1]) {
 					return false
 				}
 				bi, ok := lc.Call.Value.(*ssa.Builtin)
 				return ok && bi.Name() == "len"
 			}
-			nonEmpty := h1aHasCmp(f, isLenData, h1aOpIs(token.NEQ, token.GTR), func(v ssa.Value) bool { k, ok := h1aConstInt(v); return ok && k == 0 })
+			nonEmpty := h1aHasCmp(f, isLenData, h1aOpIs(token.NEQ, token.GTR), func(v ssa.Value) bool { k, ok := h1aConstInt(v); return ok && k == 0 }) ||
+				h1aHasCmp(f, isLenData, h1aOpIs(token.GEQ), func(v ssa.Value) bool { k, ok := h1aConstInt(v); return ok && k == 1 })
 			c.Check("encode", "Write:nonempty", fp.Pos(), nonEmpty, "a chunk is emitted without len(data) != 0 established: a zero-length chunk is the end-of-body marker")
 			format, _ := core.ConstString(fp.Common().Args[1])
 			va := h1aVarargs(fp.Common().Args[2])
-			c.Check("encode", "Write:size-line", fp.Pos(), (format == "%x\r\n" || format == "%X\r\n") && len(va) == 1 && isLenData(va[0]) && rx.R(fp.Common().Args[0]) == "cw.Wire",
+			c.Check("encode", "Write:size-line", fp.Pos(), (format == "%x\r\n" || format == "%X\r\n") && len(va) == 1 && isLenData(va[0]) && isWire(fp.Common().Args[0]),
 				fmt.Sprintf("the chunk-size line must be fmt.Fprintf(cw.Wire, \"%%x\\r\\n\", len(data)); format %q with %d operands", format, len(va)))
-			c.Check("encode", "Write:data", wr.Pos(), wr.Common().Args[0] == ssa.Value(fn.Params[1]), "the chunk data written is "+core.Render(wr.Common().Args[0])+", expected the caller's data")
+			c.Check("encode", "Write:data", wr.Pos(), h1aRes(wr.Common().Args[0]) == ssa.Value(fn.Params[1]), "the chunk data written is "+core.Render(wr.Common().Args[0])+", expected the caller's data")
 			s, _ := core.ConstString(ws.Common().Args[1])
-			c.Check("encode", "Write:data-crlf", ws.Pos(), s == "\r\n" && rx.R(ws.Common().Args[0]) == "cw.Wire", fmt.Sprintf("chunk data must be followed by CRLF on cw.Wire; writes %q", s))
-			c.Check("encode", "Write:order", fn.Pos(), core.Dominates(fp.(ssa.Instruction), wr.(ssa.Instruction)) && core.Dominates(wr.(ssa.Instruction), ws.(ssa.Instruction)), "size line, data and CRLF must be written in this order")
+			c.Check("encode", "Write:data-crlf", ws.Pos(), s == "\r\n" && isWire(ws.Common().Args[0]), fmt.Sprintf("chunk data must be followed by CRLF on cw.Wire; writes %q", s))
+			c.Check("encode", "Write:order", fn.Pos(), h1rDominates(fp.(ssa.Instruction), wr.(ssa.Instruction), fn) && h1rDominates(wr.(ssa.Instruction), ws.(ssa.Instruction), fn), "size line, data and CRLF must be written in this order")
 		}
 	}
 	if fn := c.P.Func(pkg, "chunkedWriter.Close"); fn == nil {
@@ -1091,9 +1136,11 @@ func c23Encoder(c *core.Ctx, fx *h1aFacts) {
 	} else {
 		c.Analysed(core.FuncKey(fn))
 		ok := false
-		for _, ci := range core.Calls(fn, "io.WriteString") {
+		for _, ci := range h1rRegionCalls(fn, "io.WriteString") {
 			if s, isS := core.ConstString(ci.Common().Args[1]); isS && s == "0\r\n" {
-				ok = core.MustPass(fn, nil, func(in ssa.Instruction) bool { return in == ci.(ssa.Instruction) }) == nil
+				if core.MustPass(fn, nil, core.LiftMust(func(in ssa.Instruction) bool { return in == ci.(ssa.Instruction) }, 3)) == nil {
+					ok = true
+				}
 			}
 		}
 		c.Check("encode", "Close:last-chunk", fn.Pos(), ok, "chunkedWriter.Close must write the last-chunk line \"0\\r\\n\" on every path")
@@ -1102,18 +1149,18 @@ func c23Encoder(c *core.Ctx, fx *h1aFacts) {
 		c.Missing(pkg + ".transferWriter.WriteBody")
 	} else {
 		c.Analysed(core.FuncKey(fn))
-		ncw := core.Calls(fn, pkg+".newChunkedWriter")
+		ncw := h1rRegionCalls(fn, pkg+".newChunkedWriter")
 		okCW := len(ncw) >= 1
 		for _, ci := range ncw {
-			if !c23ChunkedFact(fx.At(ci.(ssa.Instruction).Block()), true) || ci.Common().Args[0] != ssa.Value(fn.Params[1]) {
+			if !c23ChunkedFact(fx.At(ci.(ssa.Instruction).Block()), true) || h1aRes(ci.Common().Args[0]) != ssa.Value(fn.Params[1]) {
 				okCW = false
 			}
 		}
 		c.Check("encode", "WriteBody:chunked-writer", fn.Pos(), okCW, "the chunked writer must wrap w exactly when chunked(t.TransferEncoding)")
 		okEnd := false
 		var endCall ssa.Instruction
-		for _, ci := range core.Calls(fn, "io.WriteString") {
-			if s, isS := core.ConstString(ci.Common().Args[1]); isS && s == "\r\n" && ci.Common().Args[0] == ssa.Value(fn.Params[1]) && c23ChunkedFact(fx.At(ci.(ssa.Instruction).Block()), true) {
+		for _, ci := range h1rRegionCalls(fn, "io.WriteString") {
+			if s, isS := core.ConstString(ci.Common().Args[1]); isS && s == "\r\n" && h1aRes(ci.Common().Args[0]) == ssa.Value(fn.Params[1]) && c23ChunkedFact(fx.At(ci.(ssa.Instruction).Block()), true) {
 				okEnd = true
 				endCall = ci.(ssa.Instruction)
 			}
@@ -1121,20 +1168,20 @@ func c23Encoder(c *core.Ctx, fx *h1aFacts) {
 		c.Check("encode", "WriteBody:final-crlf", fn.Pos(), okEnd, "after the last chunk the (empty) trailer must be terminated by CRLF under chunked(t.TransferEncoding)")
 		// the last-chunk line is written (Close of the chunked writer) once the copy succeeded
 		closes := 0
-		for _, ci := range core.AllCalls(fn) {
+		for _, ci := range h1rRegionAllCalls(fn) {
 			cc := ci.Common()
 			if !cc.IsInvoke() || cc.Method.Name() != "Close" {
 				continue
 			}
-			call, ok := cc.Value.(*ssa.Call)
+			call, ok := h1aRes(cc.Value).(*ssa.Call)
 			if !ok || !core.CallIs(&call.Call, pkg+".newChunkedWriter") {
 				continue
 			}
 			closes++
 			okCopy := false
-			for _, cp := range core.Calls(fn, "io.Copy") {
+			for _, cp := range h1rRegionCalls(fn, "io.Copy") {
 				cpc, isCall := cp.(*ssa.Call)
-				if isCall && core.StripConv(cpc.Call.Args[0]) == ssa.Value(call) && h1aErrIs(fx.At(ci.(ssa.Instruction).Block()), cpc, 1, true) {
+				if isCall && h1aResConv(cpc.Call.Args[0]) == ssa.Value(call) && h1aErrIs(fx.At(ci.(ssa.Instruction).Block()), cpc, 1, true) {
 					okCopy = true
 				}
 			}
